@@ -16,10 +16,15 @@
        the number of rises is at most (members known) * (V+1)^2.
        C01_behind_implies_deliverable closes the per-pair loop: a quiet node that is behind a
        peer on some unquarantined member gets a non-empty offer from it.
-   Not mechanised: the last, purely combinatorial step — "hence every fair round of a
-   non-converged quiet world contains a productive exchange, and there are at most
-   sum-of-bounds of them" — as a statement over schedules of the global step relation (a
-   pigeonhole over (i)-(iv)); it is exercised by
+     - the same over the global step relation (Converge.v): from every reachable state, no step
+       but a liveness evaluation lowers the world potential (v); a complete loss-free handshake by a
+       quiet initiator that is behind its responder raises it by one (vi); hence along any
+       schedule at most (copies held)*(V+1)^2 steps — in particular handshakes by lagging
+       initiators — can raise it (vii).
+   What remains informal is only the reading of "fair": a fair schedule keeps scheduling the pair
+   (a, b) for as long as a is behind b, each such handshake is one of the at most
+   (copies)*(V+1)^2 productive steps, so after that many no initiator is behind any responder.
+   The whole is exercised by
    the correspondence suite `conv` (fair rounds after arbitrary histories, on the implementation
    and the model) whose monitor checks exactly the two consequences: every fair round of a
    non-converged world strictly increases the measure, and the world converges.
@@ -28,7 +33,7 @@
 From Coq Require Import Lia Permutation.
 From ChitchatModel Require Import Base SMap Ids Bytes Params NodeState Stream DeltaWire Message Cluster
   FD Chitchat World SMap_lemmas NodeState_lemmas Builder_lemmas Agreement Inv DeltaRefine Compute_lemmas
-  Prefix_lemmas NodeInv Codec_lemmas Emit_lemmas Truth NodeTruth Weak Reach Progress Quiet Potential GExec.
+  Prefix_lemmas NodeInv Codec_lemmas Emit_lemmas Truth NodeTruth Weak Reach Progress Quiet Potential GExec Converge.
 
 Section C01.
   Variable zc : bytes -> option bytes.
@@ -215,6 +220,48 @@ Section C01.
     exists n, In n (stale_nodes (nd_cs b1) dg (scheduled now b1)).
   Proof. exact behind_implies_deliverable. Qed.
 
+  (* ---- the same, over the global step relation (reachable states, all premises about the nodes
+          discharged from the reachability invariants) ---- *)
+  (* (v) [gpot V g] = sum of the nodes' potentials.  No step other than a liveness evaluation
+         lowers it — whatever is delivered, duplicated, reordered, written or collected *)
+  Theorem C01_world_potential_never_decreases : forall strict V g g',
+    reachable zc strict g -> gstep zc strict g g' -> bounded V g' -> no_eval g g' -> gpot V g <= gpot V g'.
+  Proof. intros strict V g g'. exact (gpot_monotone zc zc_len strict V g g'). Qed.
+
+  (* (vi) a complete loss-free handshake a -> b (SYN, SYN-ACK, ACK as four global steps), from ANY
+          reachable state in which the initiator a quarantines nobody and remembers no removed
+          member, a and b are in the same cluster, a is behind b on some member b does not quarantine,
+          and the digest leaves room for one member header and one operation: the world potential
+          rises by at least one *)
+  Theorem C01_lagging_exchange_raises_potential : forall strict V g a b o1 o2 o3 g' na nb X cb,
+    reachable zc strict g -> bounded V g -> a <> b ->
+    node_at g a = Some na -> node_at g b = Some nb ->
+    no_memory na -> scheduled (w_now (g_w g)) na = [] ->
+    cf_cluster (nd_cfg na) = cf_cluster (nd_cfg nb) ->
+    let now := w_now (g_w g) in
+    let dg := compute_digest (nd_cs na) [] in
+    let b1 := report_heartbeats_in_digest now (update_self_heartbeat nb) dg in
+    let sched := scheduled now b1 in
+    let mtu := P_MAX_UDP - (P_RESERVE_SYNACK + digest_len (compute_digest (nd_cs b1) sched)) in
+    nm_get X (cs_nodes (nd_cs nb)) = Some cb -> in_ids X sched = false ->
+    (match nm_get X (cs_nodes (nd_cs na)) with Some ca => c_max ca | None => 0 end) < c_max cb ->
+    (forall n rest, arrange o1 (stale_nodes (nd_cs b1) dg sched) = Some (n :: rest) -> P_MIN_MTU <= mtu /\ room mtu n) ->
+    gfold zc strict g (hs_ops a b o1 o2 o3) = Some g' ->
+    gpot V g + 1 <= gpot V g'.
+  Proof. intros strict. exact (lagging_exchange_raises zc zc_len strict). Qed.
+
+  (* (vii) along any schedule without liveness evaluations the number of potential-raising steps —
+           in particular of handshakes performed by a lagging initiator — is at most the final world
+           potential, itself at most (copies held) * (V+1)^2: "within a bounded number of handshakes" *)
+  Theorem C01_bounded_number_of_productive_steps : forall strict V l g0 glast,
+    gpath zc strict l -> hd g0 l = g0 -> last l glast = glast -> reachable zc strict g0 -> Forall (bounded V) l ->
+    rises (map (gpot V) l) + gpot V g0 <= gpot V glast.
+  Proof. intros strict. exact (potential_rises_bounded zc zc_len strict). Qed.
+
+  Theorem C01_world_potential_bound : forall strict V g, reachable zc strict g -> bounded V g ->
+    gpot V g <= nsum (map (fun n => N.of_nat (length (cs_nodes (nd_cs n))) * (V + 1) * (V + 1)) (w_nodes (g_w g))).
+  Proof. intros strict. exact (gpot_bound zc zc_len strict). Qed.
+
   Theorem C01_strict_advance_raises_measure : forall V c c',
     frontier_lt c c' -> c_max c <= V -> c_max c' <= V -> frontier_measure V c < frontier_measure V c'.
   Proof. exact frontier_measure_lt. Qed.
@@ -302,3 +349,7 @@ Print Assumptions C01_potential_never_decreases.
 Print Assumptions C01_potential_rises_on_exchange.
 Print Assumptions C01_productive_steps_bounded.
 Print Assumptions C01_behind_implies_deliverable.
+Print Assumptions C01_world_potential_never_decreases.
+Print Assumptions C01_lagging_exchange_raises_potential.
+Print Assumptions C01_bounded_number_of_productive_steps.
+Print Assumptions C01_world_potential_bound.
